@@ -172,6 +172,26 @@ if os.environ.get("C18_SOCK"):
         return r
     pickle.dump = dump
 
+    # a store through a temporary file: the rename onto the cache file is the (atomic) write
+    def _mk_replace(orig):
+        def replace(src, dst, *a, **kw):
+            k = _kind(dst) if not str(dst).endswith(".lock") else None
+            if k is None:
+                return orig(src, dst, *a, **kw)
+            c = _pre(k, "dump", keys=["?"])
+            if c.startswith("partial"):      # killed while writing the temporary file: the cache file is untouched
+                os.kill(os.getpid(), signal.SIGKILL)
+            try:
+                r = orig(src, dst, *a, **kw)
+            except BaseException as exc:
+                _post(k, "dump", type(exc).__name__)
+                raise
+            _post(k, "dump", "ok")
+            return r
+        return replace
+    os.replace = _mk_replace(os.replace)
+    os.rename = _mk_replace(os.rename)
+
     import filelock
     _acq = filelock.BaseFileLock.acquire
     _rel = filelock.BaseFileLock.release
@@ -320,13 +340,16 @@ elif req["cmd"] == "inspect":
             except BaseException as e:
                 r[k] = "raises:" + type(e).__name__
                 continue
-            if type(v) is not type(gold[k]):
-                r[k] = "wrongtype:" + type(v).__name__
-            elif k == "q":
-                r[k] = "valid" if getattr(v, "db_hash", None) == gold[k].db_hash else "stale"
-            else:
-                ok = all(kk in gold[k].cfg_cache and vv == gold[k].cfg_cache[kk] for kk, vv in v.cfg_cache.items())
-                r[k] = ("valid:" if ok else "stale:") + ",".join(os.path.basename(x) for x in v.cfg_cache)
+            try:
+                if type(v) is not type(gold[k]):
+                    r[k] = "wrongtype:" + type(v).__name__
+                elif k == "q":
+                    r[k] = "valid" if getattr(v, "db_hash", None) == gold[k].db_hash else "stale"
+                else:
+                    ok = all(kk in gold[k].cfg_cache and vv == gold[k].cfg_cache[kk] for kk, vv in v.cfg_cache.items())
+                    r[k] = ("valid:" if ok else "stale:") + ",".join(os.path.basename(x) for x in v.cfg_cache)
+            except Exception as e:
+                r[k] = "unusable:" + type(e).__name__
         out[folder] = r
 print("HELPER " + json.dumps(out))
 '''
@@ -585,6 +608,27 @@ def scripted_choose(script, target):
     return choose
 
 
+def observed_choose(observed):
+    """replay an observed schedule `[[pid, file, act, res], …]` (crash entries: act == 'crash', res = the command)."""
+    pos = [0]
+
+    def choose(sched, enabled):
+        while pos[0] < len(observed):
+            pid, f, act, res = observed[pos[0]][:4]
+            p = next((x for x in enabled if x.i == pid and x.pending["f"] == f), None)
+            if p is None:
+                pos[0] += 1
+                continue
+            pos[0] += 1
+            if act == "crash":
+                occ = sum(1 for t in sched.trace if t[0] == pid and t[1] == f and t[2] == p.pending["act"])
+                sched.crash_plan[pid] = ((f, p.pending["act"], occ), res)
+            return p
+        return enabled[0]
+
+    return choose
+
+
 # ------------------------------------------------------------------------------------------------ the check
 class Ctx:
     pass
@@ -610,7 +654,8 @@ def prepare(ck, work: Path) -> Ctx:
     (c.site / "sitecustomize.py").write_text(TRACER)
     c.golden = work / "golden"
     c.golden.mkdir()
-    c.n = 0
+    import itertools
+    c.counter = itertools.count(1)
     # expected answers: cache disabled (its own folder: a disabled start wipes the cache folder)
     dis = work / "disabled"
     dis.mkdir()
@@ -621,13 +666,16 @@ def prepare(ck, work: Path) -> Ctx:
     cold = run_start(c.golden, ALL_QUERIES)
     warm = run_start(c.golden, ALL_QUERIES)
     c.cold, c.warm = cold, warm
+    # a valid config cache holding only the first schema (so that other queries miss and merge)
+    c.partial = work / "partial"
+    c.partial.mkdir()
+    run_start(c.partial, [f"schema:{SCHEMAS[0]}"])
     c.info = helper(work, work / "hc", {"cmd": "info", "golden": str(c.golden)}) if cold["rc"] == 0 else {}
     return c
 
 
 def new_folder(c: Ctx, tag: str) -> Path:
-    c.n += 1
-    d = c.work / f"{tag}-{c.n}"
+    d = c.work / f"{tag}-{next(c.counter)}"
     d.mkdir()
     return d
 
@@ -639,6 +687,8 @@ def set_state(c: Ctx, folder: Path, k: str, state):
         return
     if state == "valid":
         shutil.copyfile(c.golden / name, folder / name)
+    elif state == "partial":
+        shutil.copyfile(c.partial / name, folder / name)
     elif isinstance(state, int):
         (folder / name).write_bytes((c.golden / name).read_bytes()[:state])
     else:
@@ -658,6 +708,8 @@ def model_state(c: Ctx, k: str, state, cls_of_prefix) -> str:
         return "missing"
     if state == "valid":
         return "valid:" + (",".join(str(key_id(x)) for x in c.info["d"]["keys"]) if k == "d" else "0")
+    if state == "partial":
+        return "valid:1" if k == "d" else "valid:0"
     if isinstance(state, int):
         return "raises:" + cls_of_prefix(k, state)
     if state.endswith("stalefp") or state.endswith("vanished"):
@@ -670,7 +722,7 @@ def replay_in_model(drv, kind, file0, queries, trace, procs, fkey):
     qs = ";".join(",".join(map(str, q)) if q else "-" for q in queries)
     a = drv.ask(f"init {kind} {file0} {qs}")
     if a != "ok":
-        return "init: " + a
+        return "init: " + a, {}
     for pid, f, act, res, keys in trace:
         if f != fkey:
             continue
@@ -680,27 +732,37 @@ def replay_in_model(drv, kind, file0, queries, trace, procs, fkey):
         else:
             if act == "dump":
                 if res != "ok":
-                    return f"dump failed in the implementation: {res}"
+                    return f"dump failed in the implementation: {res}", {}
                 res = ",".join(str(key_id(x)) for x in keys) if fkey == "d" else "0"
-                res = res or "-"
+                res = "?" if keys == ["?"] else (res or "-")
             elif act in ("open_w",):
                 if res != "ok":
-                    return f"open('wb') failed in the implementation: {res}"
+                    return f"open('wb') failed in the implementation: {res}", {}
                 res = "-"
             a = drv.ask(f"ev {pid} {act} {res}")
         if a != "ok":
-            return a
+            return a, {}
+    # what the model says about the end of every process: 'exit:done' | 'exit:fatal:<Exc>' | '<action>:<result>' (not finished)
+    ends = {}
+    for p in procs:
+        ends[p.i] = drv.ask(f"proc {p.i}").split(" ")[0]
+    return "ok", ends
+
+
+def judge_exits(procs, traces_touch, ends_q, ends_d):
+    """exit status of every surviving real process vs the two models (a process is fatal iff one of the models says so)."""
     for p in procs:
         if p.killed:
             continue
-        want = "done" if p.rc == 0 else "fatal:" + err_class(p.err)
-        a = drv.ask(f"ev {p.i} exit {want}")
-        if a != "ok":
-            # a process that never touched this file is still at its first pc in this file's model: not a mismatch
-            st = drv.ask(f"proc {p.i}")
-            if p.rc == 0 and not any(t[0] == p.i and t[1] == fkey for t in trace):
-                continue
-            return a + f" [model process: {st}]"
+        eq, ed = ends_q.get(p.i, "?"), ends_d.get(p.i, "?")
+        if p.rc == 0:
+            for f, e in (("q", eq), ("d", ed)):
+                if e != "exit:done" and (p.i, f) in traces_touch:
+                    return f"process {p.i} exits normally in the implementation; the model of cache '{f}' is at '{e}'"
+        else:
+            want = "exit:fatal:" + err_class(p.err)
+            if want not in (eq, ed):
+                return f"process {p.i} dies with {err_class(p.err)} in the implementation; the models are at '{eq}' / '{ed}'"
     return "ok"
 
 
@@ -745,6 +807,11 @@ def _run(ck, work, only=None):
     c = prepare(ck, work)
     par = ck.budget(12, 14)
     measured = lean_measured()
+    ostream = (only or {}).get("stream")
+    oin = (only or {}).get("input") or {}
+
+    def want(name):
+        return only is None or ostream == name
 
     s0 = ck.stream("baseline", "cold start, warm start and SPSDK_CACHE_DISABLED=1 start with every query; non-trivial = each start")
     for name, r in (("cold", c.cold), ("warm", c.warm)):
@@ -757,7 +824,7 @@ def _run(ck, work, only=None):
 
     # ---------------------------------------------------------------- exception hierarchy (model vs live classes)
     sh = ck.stream("exception_hierarchy", "every ordered pair of the model's exception enum: Exc.isSub vs issubclass on the live classes; non-trivial = each pair")
-    if drv is not None:
+    if drv is not None and want("exception_hierarchy"):
         import builtins
         import pickle
         import filelock
@@ -785,7 +852,7 @@ def _run(ck, work, only=None):
         L = set(range(0, min(ln, 4096) + 1)) | set(range(0, ln + 1, 256)) | set(range(max(0, ln - 64), ln + 1))
         for b in fr:
             L |= {x for x in (b - 1, b, b + 1, b + 9) if 0 <= x <= ln}
-        if not ck.quick:
+        if not ck.quick and only is None:
             if k == "d" or ln <= 40000:
                 L |= set(range(ln + 1))
             else:
@@ -813,7 +880,7 @@ def _run(ck, work, only=None):
     se = ck.stream("model_exploration", "exhaustive search of ALL interleavings (with kills) of the model instantiated with the generated guards, 1-3 processes, "
                    "every class of initial file; must be safe; an unsafe model schedule is replayed on real processes; non-trivial = each scenario")
     unsafe = []
-    if drv is not None:
+    if drv is not None and only is None:
         grid = []
         for f0 in ("missing", "raises:EOFError", "raises:UnpicklingError", "stale:0", "wrongtype", "valid:0"):
             for qs in ("0", "0;0", "0;0;0"):
@@ -840,7 +907,7 @@ def _run(ck, work, only=None):
         ln, fr = c.info[k]["len"], c.info[k]["frames"]
         must = [0, 1, 2, 3, ln - 1] + [x for b in fr for x in (b - 1, b, b + 1) if 0 < x < ln]
         must += [n for (kk, n) in observed.values() if kk == k and n < ln]
-        extra = [rng.randrange(1, ln) for _ in range(ck.budget(14, 900))]
+        extra = [rng.randrange(1, ln) for _ in range(ck.budget(20, 900))]
         seen = set()
         for n in must + extra:
             if n not in seen and 0 <= n < ln:
@@ -849,6 +916,8 @@ def _run(ck, work, only=None):
         if c.cli_ok:
             for n in [0, fr[-2] if len(fr) > 1 else 2, ln // 2][: ck.budget(3, 3)] + [rng.randrange(1, ln) for _ in range(ck.budget(0, 40))]:
                 cases.append((k, n, True))
+    if only is not None:
+        cases = [(oin["file"], int(oin["prefix_length"]), oin.get("entry") != "query script")] if ostream == "crash_starts" else []
 
     def do_crash_start(case):
         k, n, cli = case
@@ -886,6 +955,8 @@ def _run(ck, work, only=None):
         return v, folder, run_start(folder, ALL_QUERIES, cli=cli)
 
     vcases = [(v, False) for v in variants] + ([(v, True) for v in variants if v.startswith("q_")] if c.cli_ok else [])
+    if only is not None:
+        vcases = [(oin["variant"], oin.get("entry") != "query script")] if ostream == "stale_starts" else []
     with concurrent.futures.ThreadPoolExecutor(par) as ex:
         results = list(ex.map(do_stale, vcases))
     insp = after_states(c, [f for _, f, _ in results])
@@ -914,6 +985,8 @@ def _run(ck, work, only=None):
                 if ck.quick and name in ("midframe", "frame_boundary") and n != 4:
                     continue
                 fcases.append((name, qs_, ds_, n, rep))
+    if only is not None:
+        fcases = [next(((nm, a, b, int(oin["N"]), int(oin["rep"])) for nm, a, b in scen if nm == oin["scenario"]))] if ostream == "concurrent_starts" else []
 
     def do_free(case):
         name, qs_, ds_, n, rep = case
@@ -957,7 +1030,7 @@ def _run(ck, work, only=None):
                    "replayed in the Lean model (action, result, written key set, exit) for both cache files; survivors must exit 0 with the right answers; afterwards a fresh "
                    "start must work; non-trivial = each schedule")
     states_q = ["missing", 0, "mid", "boundary", "valid", "q_stalefp", "q_wrongtype"]
-    states_d = ["missing", 0, "mid", "valid", "d_stalefp", "d_wrongtype", "d_vanished"]
+    states_d = ["missing", 0, "mid", "partial", "d_stalefp", "d_wrongtype", "d_vanished", "valid"]
 
     def concrete(k, st):
         if st == "mid":
@@ -968,7 +1041,7 @@ def _run(ck, work, only=None):
         return st
 
     mcases = []
-    nsch = ck.budget(14, 220)
+    nsch = ck.budget(24, 240)
     for i in range(nsch):
         r = random.Random(f"{ck.seed}/sched/{i}")
         n = r.choice([2, 2, 3, 3, 4])
@@ -987,6 +1060,12 @@ def _run(ck, work, only=None):
                 act = r.choice(["dump", "dump", "dump", "open_w", "acquire", "load", "release", "exists", "remove", "open_r"])
                 plan[pid] = ((f, act, r.choice([0, 0, 1])), r.choice(["partial 0", "partial -2", "partial -1", "kill"]))
         mcases.append((i, n, qs_, ds_, queries, plan))
+    replay_choose = None
+    if only is not None:
+        mcases = []
+        if ostream in ("schedules", "model_exploration") and "observed_schedule" in oin:
+            mcases = [(int(oin["schedule_no"]), int(oin["N"]), oin["quick_cache"], oin["config_cache"], oin["queries"], {})]
+            replay_choose = observed_choose(oin["observed_schedule"])
 
     def do_sched(case, choose=None, tag="sc"):
         i, n, qs_, ds_, queries, plan = case
@@ -1019,14 +1098,17 @@ def _run(ck, work, only=None):
         stream.expect(after["rc"] == 0 and after["answers"] == c.expected["answers"], inp, "a fresh start after this schedule is fatal or answers wrongly (the cache was left in a harmful state)", after)
         stream.expect(all(state_ok(st.get(x, "?")) for x in ("q", "d")), inp, "after the schedule and one more start a cache file is neither valid nor absent", st)
         if drv is not None and not s.problem:
-            mq = replay_in_model(drv, "quick", model_state(c, "q", qs_, cls_of_prefix), [[0] for _ in queries], s.trace, s.procs, "q")
+            mq, eq = replay_in_model(drv, "quick", model_state(c, "q", qs_, cls_of_prefix), [[0] for _ in queries], s.trace, s.procs, "q")
             stream.compare({**inp, "cache": "quick"}, "ok", mq, "observed schedule of the real processes is not a run of the model (quick-info cache)")
-            md = replay_in_model(drv, "config", model_state(c, "d", ds_, cls_of_prefix), [queries_to_keys(q) for q in queries], s.trace, s.procs, "d")
+            md, ed = replay_in_model(drv, "config", model_state(c, "d", ds_, cls_of_prefix), [queries_to_keys(q) for q in queries], s.trace, s.procs, "d")
             stream.compare({**inp, "cache": "config"}, "ok", md, "observed schedule of the real processes is not a run of the model (config cache)")
+            if mq == "ok" and md == "ok":
+                touch = {(t[0], t[1]) for t in s.trace}
+                stream.compare({**inp, "cache": "exit"}, "ok", judge_exits(s.procs, touch, eq, ed), "exit status of a real process differs from the model's")
         return ok
 
-    with concurrent.futures.ThreadPoolExecutor(ck.budget(5, 5)) as ex:
-        results = list(ex.map(do_sched, mcases))
+    with concurrent.futures.ThreadPoolExecutor(ck.budget(6, 6)) as ex:
+        results = list(ex.map((lambda cs: do_sched(cs, choose=replay_choose)) if replay_choose else do_sched, mcases))
     insp = after_states(c, [f for _, f, _, _, _ in results])
     for case, folder, w, s, after in results:
         judge(sm, case, folder, w, s, after, insp.get(str(folder), {}))
@@ -1065,4 +1147,16 @@ def _run(ck, work, only=None):
 
 
 def replay(ck, data):
-    run(ck)
+    """re-run exactly the recorded case (crash state / variant / scenario / observed schedule incl. kill points)."""
+    case = (data.get("cases") or [{}])[0]
+    only = {"stream": data.get("stream"), "input": case.get("input")}
+    if data.get("stream") not in ("crash_starts", "stale_starts", "concurrent_starts", "schedules", "model_exploration") or not isinstance(only["input"], dict):
+        return run(ck)
+    ROOT.mkdir(exist_ok=True)
+    work = ROOT / f"replay-{os.getpid()}-{ck.seed}"
+    shutil.rmtree(work, ignore_errors=True)
+    work.mkdir(parents=True)
+    try:
+        _run(ck, work, only=only)
+    finally:
+        shutil.rmtree(work, ignore_errors=True)
